@@ -806,7 +806,7 @@ fn run_step(h: &mut Heap, step: &Step, scratch_key: u64) -> Result<(), Fail> {
             };
             let mut file: Vec<u8> = Vec::new();
             let mut offsets: Vec<usize> = Vec::new();
-            let mut push = |f: &mut Vec<u8>, offsets: &mut Vec<usize>| offsets.push(f.len() / 8);
+            let push = |f: &mut Vec<u8>, offsets: &mut Vec<usize>| offsets.push(f.len() / 8);
             push(&mut file, &mut offsets);
             let _ = Sds::serialize(&words, &mut file);
             push(&mut file, &mut offsets);
